@@ -126,6 +126,20 @@ static void coef_free(coef_t *c)
     c->c = c->saved = NULL;
 }
 
+/* attach-then-fill: the coefficient block holds stale bytes (NaN / Inf / 0xFF patterns) at the moment it is handed to a_tf_init / a_tf_set_num / a_tf_set_den and
+   receives its values right afterwards - the order in which the Lua, JavaScript and QuickJS bindings call them (realloc, set, fill).  The library stores the
+   pointer and reads the coefficients when it filters, so what the block held at attach time must not matter (seeded change C16-L: a side whose block
+   holds a NaN or Inf AT ATTACH TIME is "refused" and stored with order 0).  coef_stale() poisons in every third case, coef_fill() restores the values. */
+static int coef_attach_then_fill(void) { return vf.case_no % 3 == 1; }
+static void coef_stale(coef_t const *c)
+{
+    static unsigned char const pat[4][8] = {{0xFF, 0xFF, 0xFF, 0xFF, 0xFF, 0xFF, 0xFF, 0xFF}, {0, 0, 0, 0, 0, 0, 0xF0, 0x7F}, {0, 0, 0, 0, 0, 0, 0xF0, 0xFF}, {1, 0, 0, 0, 0, 0, 0xF8, 0x7F}};
+    if (!coef_attach_then_fill() || !c->c) { return; }
+    for (unsigned i = 0; i < c->n; ++i) { memcpy(&c->c[i], pat[(i + (unsigned)vf.case_no) & 3], 8); }
+    VF_COUNT("tf-coefficients-attached-before-they-are-written");
+}
+static void coef_fill(coef_t const *c) { if (coef_attach_then_fill() && c->c && c->n) { memcpy(c->c, c->saved, c->n * sizeof(double)); } }
+
 static char const *fmt_vec(char *buf, size_t cap, double const *v, unsigned n)
 {
     size_t o = 0;
@@ -270,7 +284,9 @@ static void lib_run(scn_t const *s, double const *x, unsigned L, double *y, int 
     line_alloc(&out[0], cden->n, guarded);
     vf_log("[%s] a_tf_init(num_n=%u num=%s, den_n=%u den=%s) lines=%s L=%u", tag, cnum->n, fmt_vec(b1, sizeof b1, cnum->c, cnum->n),
            cden->n, fmt_vec(b2, sizeof b2, cden->c, cden->n), guarded ? "canary-guarded" : "exact-size blocks", L);
+    coef_stale(cnum); coef_stale(cden);
     a_tf_init(ctx, cnum->n, cnum->c, cin->p, cden->n, cden->c, cout->p);
+    coef_fill(cnum); coef_fill(cden);
     VF_COUNT("tf-init-zero-state");
     if (!ctx_is(ctx, cnum, cin, cden, cout)) { vf_viol("tf_init/context-fields-not-set", "%s", g_desc); }
     if (!cells_are_zero(cin->p, cin->n) || !cells_are_zero(cout->p, cout->n))
@@ -300,7 +316,9 @@ static void lib_run(scn_t const *s, double const *x, unsigned L, double *y, int 
                 have1_in = 1;
                 cnum = &s->num[1];
                 cin = &in[1];
+                coef_stale(cnum);
                 a_tf_set_num(ctx, cnum->n, cnum->c, cin->p);
+                coef_fill(cnum);
                 kx0 = k;
                 VF_COUNT("tf-set-num-mid-history");
                 if (!cells_are_zero(cin->p, cin->n)) { vf_viol("tf_set_num/new-input-line-not-zeroed", "step %u; %s", k, g_desc); }
@@ -312,7 +330,9 @@ static void lib_run(scn_t const *s, double const *x, unsigned L, double *y, int 
                 have1_out = 1;
                 cden = &s->den[1];
                 cout = &out[1];
+                coef_stale(cden);
                 a_tf_set_den(ctx, cden->n, cden->c, cout->p);
+                coef_fill(cden);
                 ky0 = k;
                 VF_COUNT("tf-set-den-mid-history");
                 if (!cells_are_zero(cout->p, cout->n)) { vf_viol("tf_set_den/new-output-line-not-zeroed", "step %u; %s", k, g_desc); }
@@ -326,7 +346,9 @@ static void lib_run(scn_t const *s, double const *x, unsigned L, double *y, int 
                 cden = &s->den[1];
                 cin = &in[1];
                 cout = &out[1];
+                coef_stale(cnum); coef_stale(cden);
                 a_tf_init(ctx, cnum->n, cnum->c, cin->p, cden->n, cden->c, cout->p);
+                coef_fill(cnum); coef_fill(cden);
                 kx0 = ky0 = k;
                 VF_COUNT("tf-reinit-mid-history");
                 if (!cells_are_zero(cin->p, cin->n) || !cells_are_zero(cout->p, cout->n))
